@@ -683,19 +683,26 @@ Qed.
    [res_equiv]: equal, except that two GetByPrefix / BucketNames listings are compared as sets (Permutation);
    [R]: the abstraction relation (committed store decoded through the inner-key encoding = committed content; store after
    committing the open batch = the working copy; the store a read transaction captured = its snapshot content; slots
-   hold handles of the same buckets / iterators with the same entries left).
+   hold handles of the same buckets / iterators with the same entries left; and the specification's own invariant [sinv]:
+   none of its contents has orphans — a nested bucket's parent exists, entries are in existing buckets).
    For EVERY typed operation sequence: the model's results agree with the specification's on the whole specified
    prefix, R relates the two states after every specified prefix, and (non-vacuity of the prefix formulation) when no step
    is unspecified the prefix is the whole sequence.
-   SPECIFIED (everything else is [Unspecified]): BeginTx / BeginReadTx / Commit / Rollback / read-transaction end /
+   SPECIFIED — the whole operation language: BeginTx / BeginReadTx / Commit / Rollback / read-transaction end /
    db.Update begin and end with or without error / Close / Reopen / TopLevelBucket / CreateTopLevelBucket /
    DeleteTopLevelBucket / Put / Delete / Clear / Get / GetByPrefix / NewIterator (nil, Range, BytesPrefix) / Seek / Next /
    Release — in read AND write transactions, iterators of a write transaction also after later writes (they keep
-   showing the view as of their creation) / db.BytesPrefix.
-   NOT YET SPECIFIED (the step is [Unspecified], the theorem is silent from there on): NewBucket, Bucket, DeleteBucket,
-   FetchBucket, both BucketNames, the dump; and, as in the harness, a Put through the handle of a bucket that does not
-   exist in the transaction and a lookup of a committed bucket the transaction itself deleted (neither can occur without
-   DeleteBucket). *)
+   showing the view as of their creation) / db.BytesPrefix; and over NESTED buckets at every depth: NewBucket, Bucket,
+   FetchBucket, DeleteBucket (recursive: the child and everything below it leaves the working copy, [remove_tree]; sibling
+   buckets whose names are prefixes of one another are untouched), BucketNames of a bucket and of a transaction
+   ([children]: exactly the existing children, each once), and the harness' dump of the committed content.
+   UNSPECIFIED (the step is [Unspecified], the theorem is silent from there on), exactly where the harness taints or the
+   theorems above are refuted: NewBucket under a parent that no longer exists in the transaction; NewBucket of a bucket the
+   same transaction has already created (C11_create_twice_refuted: it succeeds, after a commit it is refused); a Put through
+   the handle of a bucket that does not exist in the transaction; a lookup (TopLevelBucket / Bucket / FetchBucket) of a
+   committed bucket the transaction itself deleted (C11_lookup_after_delete_refuted); and — a bound of the MODEL, not of the
+   code — DeleteBucket of a subtree nested [delete_fuel] = 64 or more levels deep (the model's recursion then answers an
+   error; the dump likewise shows [dump_fuel] = 12 levels, on both sides). *)
 Theorem C11_refines_abstract_map : forall ops, Forall op_bytes ops ->
   Forall2 res_equiv (firstn (length (spec_run spec_init ops)) (outs init_state ops)) (spec_run spec_init ops) /\
   (forall n, match spec_exec spec_init (firstn n ops) with
@@ -712,6 +719,23 @@ Theorem C11_refinement_step : forall st ss o ss' r, R st ss -> op_bytes o -> spe
 Proof. exact step_sim. Qed.
 Print Assumptions C11_refinement_step.
 
+(* the specification's invariant by itself: no specified step creates an orphan, so in particular the bucket a specified
+   NewBucket creates is empty (no entries, no sub-buckets) — also when it replaces a bucket deleted earlier *)
+Theorem C11_spec_no_orphans : forall ss o ss' r, sinv ss -> spec_step ss o = (ss', Spec r) -> sinv ss'.
+Proof. exact spec_step_sinv. Qed.
+Print Assumptions C11_spec_no_orphans.
+Theorem C11_spec_new_bucket_empty : forall c q, cclosed c -> has_bucket c q = false -> q <> [] ->
+  entries (add_bucket c q) q = [] /\ children (add_bucket c q) q = [].
+Proof. exact new_bucket_is_empty. Qed.
+Print Assumptions C11_spec_new_bucket_empty.
+
+(* DeleteBucket answers nil whenever the model's recursion bound covers the subtree: [shallow f ns d] = fewer than d
+   nesting levels exist below the bucket ns in view f (this is what makes the specification's "nil" provable) *)
+Theorem C11_delete_bucket_total : forall s b h ns n, keys_sorted s -> store_ok s -> binv b -> hnd h ns ->
+  shallow (vw s b) (ns ++ [n]) delete_fuel -> fst (delete_bucket s (Some b) h n) = Ok tt.
+Proof. exact delete_bucket_total. Qed.
+Print Assumptions C11_delete_bucket_total.
+
 (* non-vacuity: on the history Refine.ex_ref_ops (a committed put, a read transaction spanning a later commit, a write
    transaction that deletes / overwrites / puts, reads back, iterates and is rolled back, close / reopen) every step is
    specified, and both sides compute the same 38 results (the one listing inside the write transaction in a different order) *)
@@ -720,7 +744,24 @@ Example C11_ex_refinement :
   spec_run spec_init ex_ref_ops = ex_ref_outs [([98], [121]); ([109], [120])] /\
   outs init_state ex_ref_ops = ex_ref_outs [([109], [120]); ([98], [121])].
 Proof. split; [exact ex_ref_bytes|]. vm_compute. repeat split. Qed.
-(* the theorem instantiated on it, premise-free *)
+(* nested buckets, Refine.ex_nest_ops: create a, a/b, a/bc (one name a prefix of the other), put k in both, look up and list,
+   delete a/b, list again, read a/bc (still there) and a/b through the stale handle (gone), commit, close, reopen; a read
+   transaction lists, reads, fetches; a write transaction deletes the committed a/bc, creates it again (empty) and is rolled
+   back: every step is specified and both sides compute the same 35 results (one listing in a different order) *)
+Example C11_ex_refinement_nested :
+  Forall op_bytes ex_nest_ops /\ length (spec_run spec_init ex_nest_ops) = length ex_nest_ops /\
+  spec_run spec_init ex_nest_ops = ex_nest_outs [[98; 99]; [98]] /\
+  outs init_state ex_nest_ops = ex_nest_outs [[98]; [98; 99]] /\
+  snd (spec_step spec_init ODump) = Spec (RDump []) /\
+  (forall ss', spec_exec spec_init (firstn 15 ex_nest_ops) = Some ss' ->
+     snd (spec_step ss' ODump) = Spec (RDump [([49; 95; 97], Ok []); ([50; 95; 97; 95; 98; 99], Ok [([107], [119])])]) /\
+     snd (step (run (firstn 15 ex_nest_ops)) ODump) = RDump [([49; 95; 97], Ok []); ([50; 95; 97; 95; 98; 99], Ok [([107], [119])])]).
+Proof.
+  split; [exact ex_nest_bytes|]. split; [vm_compute; reflexivity|]. split; [vm_compute; reflexivity|].
+  split; [vm_compute; reflexivity|]. split; [vm_compute; reflexivity|].
+  intros ss' E. vm_compute in E. inversion E; subst ss'. vm_compute. split; reflexivity.
+Qed.
+(* the theorem instantiated on them, premise-free *)
 Example C11_ex_refinement_thm :
   Forall2 res_equiv (outs init_state ex_ref_ops) (spec_run spec_init ex_ref_ops) /\
   exists ss', spec_exec spec_init ex_ref_ops = Some ss' /\ R (run ex_ref_ops) ss'.
@@ -732,3 +773,14 @@ Proof.
     destruct (spec_exec spec_init ex_ref_ops) as [ss'|] eqn:E; [exists ss'; auto|]. vm_compute in E. discriminate.
 Qed.
 Print Assumptions C11_ex_refinement_thm.
+Example C11_ex_refinement_nested_thm :
+  Forall2 res_equiv (outs init_state ex_nest_ops) (spec_run spec_init ex_nest_ops) /\
+  exists ss', spec_exec spec_init ex_nest_ops = Some ss' /\ R (run ex_nest_ops) ss'.
+Proof.
+  destruct (C11_refines_abstract_map ex_nest_ops ex_nest_bytes) as [H1 [H2 _]]. split.
+  - replace (outs init_state ex_nest_ops) with (firstn (length (spec_run spec_init ex_nest_ops)) (outs init_state ex_nest_ops)); [exact H1|].
+    vm_compute. reflexivity.
+  - specialize (H2 (length ex_nest_ops)). rewrite firstn_all in H2.
+    destruct (spec_exec spec_init ex_nest_ops) as [ss'|] eqn:E; [exists ss'; auto|]. vm_compute in E. discriminate.
+Qed.
+Print Assumptions C11_ex_refinement_nested_thm.
